@@ -297,11 +297,44 @@ func c07H3Gen(s *verifh.Session) (c07H3Script, []string) {
 		}
 	}
 	out.Write(c07H3Frame(0x1, block))
+	// noise AFTER the header section, between and after DATA frames (the body reader's parser)
+	midNoise := func() {
+		if r.Intn(5) != 0 {
+			return
+		}
+		switch r.Intn(7) {
+		case 0:
+			out.Write(c07H3Frame(verifh.Pick(r, []uint64{0x2, 0x6, 0x8, 0x9}), []byte("x")))
+			tag("h2-reserved-type-in-body")
+		case 1:
+			out.Write(c07H3Frame(0x4, []byte{0x06, 0x40, 0x40}))
+			tag("settings-in-body")
+		case 2:
+			out.Write(c07H3Frame(0x21+0x1f*uint64(r.Intn(5)), []byte(verifh.RandBytes(r, r.Intn(20), ""))))
+			tag("grease-in-body")
+		case 3:
+			out.Write(c07H3Frame(0x7, []byte{0x00}))
+			tag("goaway-in-body")
+		case 4:
+			out.Write(c07H3Frame(0x5, []byte{0x01, 0x00, 0x00}))
+			tag("push-promise-in-body")
+		case 5:
+			out.Write(c07H3Frame(0x3, []byte{0x01}))
+			tag("cancel-push-in-body")
+		default:
+			b := quicvarint.Append(nil, 0x0)
+			b = quicvarint.Append(b, 1<<40)
+			out.Write(append(b, 'z'))
+			tag("data-length-lie")
+		}
+	}
+	midNoise()
 	rest := body
 	for len(rest) > 0 {
 		n := 1 + r.Intn(len(rest))
 		out.Write(c07H3Frame(0x0, rest[:n]))
 		rest = rest[n:]
+		midNoise()
 	}
 	switch r.Intn(10) {
 	case 0:
